@@ -140,3 +140,83 @@ UNIT['functions']['BuildEngineImpl::findCycle#invert'] = {
                                 '((__i1 == 1 && 1 < $i) ==> (g_edge_from[successorGraph->ptr[0].second.len + 1] == successorGraph->ptr[1].second.ptr[1] && g_edge_to[successorGraph->ptr[0].second.len + 1] == successorGraph->ptr[1].first))'],
                   'decreases': '$range->len - $i'}},
 }
+
+
+# the first loop of findCycle, one task: successors of the task's rule are the rules of the tasks that requested it and the rules whose scan is deferred on it
+def _sg_insert(tr, n, obj, args, argnodes):
+    """successorGraph.insert({ rule, successors }): the braces build a pair; its two members are the only two expressions of pointer / vector type inside"""
+    found = []
+
+    def walk(x):
+        if isinstance(x, dict):
+            if x.get('kind') in ('InitListExpr', 'CXXConstructExpr') and len(x.get('inner', [])) == 2:
+                found.append(x)
+                return
+            for c in x.get('inner', []):
+                walk(c)
+    walk({'inner': argnodes})
+    if len(found) != 1:
+        def show(x, d=0, out=None):
+            if isinstance(x, dict):
+                out.append('  ' * d + x.get('kind', '?') + ' ' + (x.get('type') or {}).get('qualType', '')[:60])
+                if d < 8:
+                    for c in x.get('inner', []):
+                        show(c, d + 1, out)
+            return out
+        raise Exception('successorGraph.insert: expected one braced pair\n' + '\n'.join(show({'inner': argnodes}, 0, [])))
+    a, b = found[0]['inner']
+    return 'sg_insert(%s, %s)' % (obj, tr.expr(a))
+
+
+UNIT['calls']['m:@struct succmap::insert'] = _sg_insert
+UNIT['prelude'] += """
+/* successors.push_back(x) logs the target of an edge whose source is known only at successorGraph.insert({rule, successors}) */
+unsigned g_mark;
+static inline void sg_insert(struct succmap *m, struct Rule *from) {
+  if (g_mark <= 0 && 0 < g_nedges) g_edge_from[0] = from;
+  if (g_mark <= 1 && 1 < g_nedges) g_edge_from[1] = from;
+  if (g_mark <= 2 && 2 < g_nedges) g_edge_from[2] = from;
+  if (g_mark <= 3 && 3 < g_nedges) g_edge_from[3] = from;
+  g_mark = g_nedges; }
+"""
+TI = 'taskInfo'
+RB = '(*it).second.requestedBy.ptr[%d]'
+DS = '(*it).second.deferredScanRequests.ptr[%d]'
+RBL = '(*it).second.requestedBy.len'
+DSL = '(*it).second.deferredScanRequests.len'
+UNIT['functions']['BuildEngineImpl::findCycle#tasks'] = {
+    'of': 'BuildEngineImpl::findCycle', 'cname': 'BuildEngineImpl_findCycle_tasks_step',
+    'segment': {'kind': 'CompoundStmt', 'mentions': ['requestedBy', 'deferredScanRequests', 'successors', 'successorGraph', 'forRuleInfo', 'taskInfo']},
+    'requires': ['__CPROVER_is_fresh(it, sizeof(*it))', '__CPROVER_is_fresh(successorGraph, sizeof(*successorGraph))', '__CPROVER_is_fresh((*it).second.forRuleInfo, sizeof(struct BuildEngineImpl_RuleInfo))',
+                 'VEC_OKN((*it).second.requestedBy, struct BuildEngineImpl_TaskInputRequest, 2)', 'VEC_OKN((*it).second.deferredScanRequests, struct BuildEngineImpl_RuleScanRequest, 2)',
+                 '__CPROVER_is_fresh(%s.taskInfo, sizeof(struct BuildEngineImpl_TaskInfo)) && __CPROVER_is_fresh(%s.taskInfo, sizeof(struct BuildEngineImpl_TaskInfo))' % (RB % 0, RB % 1),
+                 '__CPROVER_is_fresh(%s.taskInfo->forRuleInfo, sizeof(struct BuildEngineImpl_RuleInfo)) && __CPROVER_is_fresh(%s.taskInfo->forRuleInfo, sizeof(struct BuildEngineImpl_RuleInfo))' % (RB % 0, RB % 1),
+                 '__CPROVER_is_fresh(%s.ruleInfo, sizeof(struct BuildEngineImpl_RuleInfo)) && __CPROVER_is_fresh(%s.ruleInfo, sizeof(struct BuildEngineImpl_RuleInfo))' % (DS % 0, DS % 1),
+                 'g_nedges == 0 && g_mark == 0'],
+    'assigns': ['g_nedges', 'g_mark', 'g_cur_from', '__CPROVER_object_whole(g_edge_from)', '__CPROVER_object_whole(g_edge_to)'],
+    'ensures': [
+        ('P:C07', 'g_nedges == %s + %s && g_mark == g_nedges' % (RBL, DSL)),
+        # every request for this task's rule: the requesting task's rule waits for it
+        ('P:C07', ' && '.join('((%d < %s) ==> (g_edge_from[%d] == (*it).second.forRuleInfo->rule && g_edge_to[%d] == %s.taskInfo->forRuleInfo->rule))' % (k, RBL, k, k, RB % k) for k in range(2))),
+        # every scan deferred on this task: the rule being scanned waits for it
+        ('P:C07', ' && '.join('((%d < %s) ==> (g_edge_from[%s + %d] == (*it).second.forRuleInfo->rule && g_edge_to[%s + %d] == %s.ruleInfo->rule))' % (k, DSL, RBL, k, RBL, k, DS % k) for k in range(2))),
+    ],
+    'loops': {0: {'assigns': ['$i', 'g_nedges', 'g_cur_from', '__CPROVER_object_whole(g_edge_from)', '__CPROVER_object_whole(g_edge_to)'],
+                  'invariant': ['$i <= $range->len && g_nedges == $i && g_mark == 0 && ' + ' && '.join('((%d < $i) ==> g_edge_to[%d] == %s.taskInfo->forRuleInfo->rule)' % (k, k, RB % k) for k in range(2))],
+                  'decreases': '$range->len - $i'},
+              1: {'assigns': ['$i', 'g_nedges', 'g_cur_from', '__CPROVER_object_whole(g_edge_from)', '__CPROVER_object_whole(g_edge_to)'],
+                  'invariant': ['$i <= $range->len && g_nedges == %s + $i && g_mark == 0 && ' % RBL + ' && '.join('((%d < %s) ==> g_edge_to[%d] == %s.taskInfo->forRuleInfo->rule)' % (k, RBL, k, RB % k) for k in range(2)) + ' && ' +
+                                ' && '.join('((%d < $i) ==> g_edge_to[%s + %d] == %s.ruleInfo->rule)' % (k, RBL, k, DS % k) for k in range(2))],
+                  'decreases': '$range->len - $i'}},
+}
+
+# the second loop of findCycle, one rule: the pending scan record of every rule that is being scanned is a starting point of the gathering
+UNIT['functions']['BuildEngineImpl::findCycle#scanning'] = {
+    'of': 'BuildEngineImpl::findCycle', 'cname': 'BuildEngineImpl_findCycle_scanning_step',
+    'segment': {'kind': 'IfStmt', 'mentions': ['isScanning', 'activeRuleScanRecords', 'getPendingScanRecord', 'scanRecord'], 'excludes': ['deferredScanRequests', 'successorGraph']},
+    'requires': ['__CPROVER_is_fresh(ruleInfo, sizeof(*ruleInfo))', '__CPROVER_is_fresh(activeRuleScanRecords, sizeof(*activeRuleScanRecords))',
+                 'VEC_OKN(*activeRuleScanRecords, struct BuildEngineImpl_RuleScanRecord *, 8)', 'activeRuleScanRecords->len <= 4 && g_a0 == activeRuleScanRecords->len',
+                 '(ruleInfo->state == %sIsScanning) ==> PSR(ruleInfo) != 0' % S],
+    'assigns': ['activeRuleScanRecords->len', '__CPROVER_object_whole(activeRuleScanRecords->ptr)'],
+    'ensures': [('P:C07', '(ruleInfo->state == %sIsScanning) ? (activeRuleScanRecords->len == g_a0 + 1 && activeRuleScanRecords->ptr[g_a0] == PSR(ruleInfo)) : activeRuleScanRecords->len == g_a0' % S)],
+}
